@@ -299,7 +299,9 @@ func (dec *xmlDecoder) decodeXML(root *xmlNode) error {
 				log.Debug("chardata [%v] for %v", elem.n.Data, elem.label)
 			}
 		case xml.EndElement:
-			if elem == nil {
+			if elem == nil || elem.parent == nil {
+				// an end tag without a start tag: stay on the root element, so that
+				// whatever follows (comments, directives) still has an element to attach to
 				log.Debug("no element, probably bad xml")
 				continue
 			}
